@@ -1506,7 +1506,18 @@ func convenientPrimeRule(P *Program, R *Report, rule string) {
 	// ret := 1 << row.Exp; diff := row.Diff; ret -= diff; return &ret  (value-typed locals: matched on the calls)
 	var shiftObj, diffObj, subRecv, subArg *ssa.Alloc
 	var got []string
+	// (in the function itself, or in the new unexported helper / method on the table row that it returns the result of)
+	body := fn
 	for _, ci := range callsIn(fn) {
+		if g := staticCallee(ci); g != nil && g.Blocks != nil && newHelper(g) {
+			for _, r := range returnsOf(fn) {
+				if retValue(r, 0) == ci.Value() {
+					body = g
+				}
+			}
+		}
+	}
+	for _, ci := range callsIn(body) {
 		c, isC := ci.(*ssa.Call)
 		if !isC {
 			continue
@@ -1531,7 +1542,7 @@ func convenientPrimeRule(P *Program, R *Report, rule string) {
 	}
 	ok := shiftObj != nil && diffObj != nil && subRecv == shiftObj && subArg == diffObj
 	n := 0
-	for _, r := range returnsOf(fn) {
+	for _, r := range returnsOf(body) {
 		if v := retValue(r, 0); !isNilConst(v) {
 			n++
 			if rootAlloc(v) != shiftObj {
